@@ -321,7 +321,11 @@ impl Client {
                         && self.spec.swarm.client_fault_permille > 0
                         && self.fault_rng.below(1000) < self.spec.swarm.client_fault_permille as u64
                     {
-                        match self.fault_rng.below(5) {
+                        match self.fault_rng.below(6) {
+                            5 => {
+                                how = 3;
+                                self.count("fault.client_answer_wrong_shape");
+                            }
                             0 => {
                                 due = t + 1000;
                                 self.count("fault.client_answer_late_1s");
@@ -387,6 +391,16 @@ impl Client {
                 let p = self.pending.remove(i);
                 let resp = if p.how == 1 {
                     Response::new_err(p.id.clone(), -32603, "simulated client error".into())
+                } else if p.how == 3 {
+                    // a result of the wrong JSON shape for the method (a buggy or foreign client)
+                    let v = match self.fault_rng.below(5) {
+                        0 => json!("oops"),
+                        1 => json!(42),
+                        2 => json!([42, "x"]),
+                        3 => json!({"unexpected": {"deep": [1, 2, 3]}}),
+                        _ => json!([{"workspace": 7, "diagnostics": "yes", "runtime": []}]),
+                    };
+                    Response::new_ok(p.id.clone(), v)
                 } else {
                     Response::new_ok(p.id.clone(), self.answer_value(&p.method, &p.params))
                 };
